@@ -59,6 +59,11 @@ Definition model1 (o : dop) : list bytes :=
   else if code =? 3 then scanner_model (a 0 args)
   else if code =? 4 then upload_model (a 0 args ++ a 2 args ++ a 3 args)
   else if code =? 5 then folder_model (a 0 args) (a 2 args)
+  else if code =? 6 then
+    (* op 6 = the client's side of a folder download under a segmentation: args client bytes, chunk script, what the
+       server sent when the same bytes arrived in one piece; obs what it sent now.  No byte-level model of the
+       folder download is used here: the comparison is with the one-piece delivery (the segmentation does not enter) *)
+    [a 2 args]
   else [].
 Definition model (ops : list dop) : list (list bytes) := map model1 ops.
 
@@ -91,6 +96,7 @@ Definition oracle1 (o : dop) (obs : list bytes) : bool :=
   else if code =? 5 then
     (* arguments 3.. are what the client sent, item by item; a complete stream must leave exactly that on disk *)
     list_eqb bytes_match ([1] :: skipn 3 args) obs
+  else if code =? 6 then list_eqb bytes_match [a 2 args] obs
   else true.
 Definition oracle (ops : list dop) (obs : list (list bytes)) : bool :=
   forallb (fun p => oracle1 (fst p) (snd p)) (combine ops obs).
